@@ -854,12 +854,25 @@ func (g *fnGen) binop(st *state, op token.Token, x, y string, tx, ty types.Type,
 		}
 		return t
 	}
+	overflow := func(t string) {
+		if instr == nil {
+			return
+		}
+		if b, ok := tx.Underlying().(*types.Basic); ok && b.Info()&types.IsInteger != 0 && b.Info()&types.IsUnsigned == 0 {
+			if lo, hi, ok := intRange(b); ok {
+				g.oblige(st, "overflow", g.anchor(instr.Pos(), "arith"), instr.Pos(), "", And(S("<=", IntLit(lo), t), S("<=", t, IntLit(hi))), "signed integer arithmetic does not overflow (the encoding treats it as mathematical)")
+			}
+		}
+	}
 	switch op {
 	case token.ADD:
+		overflow(S("+", x, y))
 		return wrapRes(S("+", x, y))
 	case token.SUB:
+		overflow(S("-", x, y))
 		return wrapRes(S("-", x, y))
 	case token.MUL:
+		overflow(S("*", x, y))
 		return wrapRes(S("*", x, y))
 	case token.QUO:
 		if instr != nil {
